@@ -24,6 +24,11 @@ def is_signed(event, config):
     """
     if not event.verify():
         raise StorageError("invalid: Bad signature")
+    # verify() checks the signature against the computed hash, not against the id that was sent
+    if type(event.created_at) is not int or event.id != event.compute_id(
+        event.pubkey, event.created_at, event.kind, event.tags, event.content
+    ):
+        raise StorageError("invalid: Bad id")
 
 
 def is_recent(event, config):
